@@ -41,12 +41,28 @@
             (else (cons (caar lsts) (apply append (cdar lsts) (cdr lsts))))))
 
 
-        (define (map proc list)
+        (define (map1 proc list)
             (if (pair? list)
-                (cons (proc (car list)) (map proc (cdr list)))
+                (cons (proc (car list)) (map1 proc (cdr list)))
                 list
             )
         )
+
+        ; #t when every element of lists is a pair, i.e. no list has run out
+        (define (all-pairs? lists)
+            (cond ((null? lists) #t)
+                  ((pair? (car lists)) (all-pairs? (cdr lists)))
+                  (else #f)))
+
+        (define (map proc list . lists)
+            (if (null? lists)
+                (map1 proc list)
+                (map-n proc (cons list lists))))
+
+        (define (map-n proc lists)
+            (if (all-pairs? lists)
+                (cons (apply proc (map1 car lists)) (map-n proc (map1 cdr lists)))
+                '()))
 
         (define filter
             (lambda (pred lst)
@@ -55,9 +71,15 @@
                     (else (filterb pred (cdr lst))))))
 
 
-        (define (for-each proc list)
-            (if (pair? list)
-                ((lambda () (proc (car list)) (for-each proc (cdr list))))))
+        (define (for-each proc list . lists)
+            (if (null? lists)
+                (if (pair? list)
+                    ((lambda () (proc (car list)) (for-each proc (cdr list)))))
+                (for-each-n proc (cons list lists))))
+
+        (define (for-each-n proc lists)
+            (if (all-pairs? lists)
+                ((lambda () (apply proc (map1 car lists)) (for-each-n proc (map1 cdr lists))))))
 
         (define (fold-left f init seq)
             (if (null? seq)
